@@ -37,6 +37,7 @@ def scan(path: str) -> dict:
             "moof_start": [f.moof.start for f in frs],
             "payload_off": [(f.mdat.start + f.mdat.hdr, f.mdat.end) for f in frs],
             "has_mehd": info.get("mehd") is not None,
+            "box_starts": [b.start for b in info["root"].children],
         }
     return _scan_cache[path]
 
